@@ -520,6 +520,14 @@ theorem Bad.sharedPool :
           (callFresh (fun _ => ⟨false, 1, 2, 2⟩) (fun _ _ _ => (1 : ℤ)))).map (fun r => r 0) := by
   rw [runPool_leftovers]; decide
 
+/-- the same counterexample on the two executed front ends (`C01 multipool` vs `C01 multi`): two objects `N = 1`,
+`M = Mo = 2`, history `A.forward, B.backward, A.forward` on unit impulses — the pooled model and the per-object model
+disagree, so the correspondence with the real population (family `tie-multi`) tells them apart -/
+theorem Bad.sharedPool_executed :
+    multiPoolImpulse [⟨false, 1, 2, 2⟩, ⟨false, 1, 2, 2⟩] [(0, false, 0), (1, true, 0), (0, false, 0)] 0
+      ≠ multiImpulse [⟨false, 1, 2, 2⟩, ⟨false, 1, 2, 2⟩] [(0, false, 0), (1, true, 0), (0, false, 0)] 0 := by
+  decide +kernel
+
 /-! ### the float decisions of `__init__` (`Model/FftDecide.lean`; repaired by D65, D66) -/
 
 /-- the phase ramp of the output shift is skipped exactly when the shift is zero on every axis — the only
